@@ -17,14 +17,15 @@ LEVEL = "exploration"
 RULE = (
     "Hypothesis: n in 1..4 variables at points inside and outside their bounds, lower/upper bound vectors with every "
     "finite/infinite mix per side, 0-3 linear constraints (integer-ish matrices, non-zero rows) and 0-3 non-linear "
-    "constraints with equality/lower/upper/two-sided/unbounded bounds, R in 1..2 realizations, optional variable / "
+    "constraints with equality/lower/upper/two-sided/unbounded bounds, a quarter of the cases with values of magnitude 1..1e6 "
+    "placed on, 1e-6..1e-4 relative inside or outside a finite bound, R in 1..2 realizations, optional variable / "
     "objective / constraint scaling transforms; evaluated by an evaluator step in a Plan with 'last' trackers of several "
     "tolerances attached. Oracle: lower_diff = v - lb, upper_diff = v - ub, violation = max(lb - v, v - ub, 0) in the "
     "user domain for all three groups, present whenever a finite bound exists; tracker accepts iff all violations <= "
     "tolerance. Non-trivial: a group with >=1 infinite and >=1 finite bound, or >=1 violated bound."
 )
 ASSUMPTIONS = [
-    "comparison tolerance 1e-9 relative (transforms introduce rounding); infinities must match exactly",
+    "comparison tolerance 1e-9 relative to the difference plus 1e-12 relative to its operands (cancellation); infinities must match exactly",
     "tracker acceptance is decided without transforms only (the statement does not fix the domain of the tolerance) and "
     "with violations either 0 or clearly above the tolerance",
 ]
@@ -36,12 +37,14 @@ def expect(v: np.ndarray, lb: np.ndarray, ub: np.ndarray) -> tuple[np.ndarray, n
         return v - lb, v - ub, np.maximum(np.maximum(lb - v, v - ub), 0.0)
 
 
-def same(got: Any, exp: np.ndarray) -> bool:  # noqa: ANN401
+def same(got: Any, exp: np.ndarray, mag: np.ndarray | float = 0.0) -> bool:  # noqa: ANN401
+    """mag: magnitude of the operands of the difference (cancellation: rounding scales with the operands, not the result)."""
     got = np.asarray(got, dtype=np.float64)
     if got.shape != exp.shape:
         return False
     fin = np.isfinite(exp)
-    return bool(np.array_equal(got[~fin], exp[~fin]) and np.all(np.abs(got[fin] - exp[fin]) <= 1e-9 * (1 + np.abs(exp[fin]))))
+    extra = np.broadcast_to(np.asarray(mag, dtype=np.float64), exp.shape)
+    return bool(np.array_equal(got[~fin], exp[~fin]) and np.all(np.abs(got[fin] - exp[fin]) <= 1e-9 * (1 + np.abs(exp[fin])) + 1e-12 * extra[fin]))
 
 
 def run_case(case: dict[str, Any]) -> dict[str, Any]:  # noqa: C901, PLR0915
@@ -76,7 +79,7 @@ def run_case(case: dict[str, Any]) -> dict[str, Any]:  # noqa: C901, PLR0915
     check(len(seen) == 1 and len(seen[0]["results"]) == 1, "harness", "expected one result", case)
     res = seen[0]["results"][0]
     x = np.array(case["x"], dtype=np.float64)
-    check(bool(np.all(np.abs(np.asarray(res.evaluations.variables) - x) <= 1e-9 * (1 + np.abs(x)))), "variables",
+    check(bool(np.all(np.abs(np.asarray(res.evaluations.variables) - x) <= 1e-12 * (1 + np.abs(x)))), "variables",
           "user-domain variables differ from the configured point", case)
     info = res.constraint_info
     nontrivial = False
@@ -89,9 +92,11 @@ def run_case(case: dict[str, Any]) -> dict[str, Any]:  # noqa: C901, PLR0915
     if c_n:
         w = np.full(r_n, 1.0 / r_n)
         vals = np.array([sum(w[r] * ev.value("con", r, c, x) for r in range(r_n)) for c in range(c_n)])
-        check(same(res.functions.constraints, vals), "constraint-values", "user-domain constraint values differ", case)
+        check(same(res.functions.constraints, vals, np.abs(vals) + float(np.max(np.abs(x))) * float(np.max(np.abs(a)))), "constraint-values",
+              "user-domain constraint values differ", case)
         groups.append(("nonlinear", vals, np.array(case["nlb"], dtype=np.float64), np.array(case["nub"], dtype=np.float64)))
     max_violation = 0.0
+    unsure = 0.0  # rounding of the values themselves (only relevant for the near-bound cases of arbitrary magnitude)
     for name, v, lo, hi in groups:
         finite_any = bool(np.isfinite(lo).any() or np.isfinite(hi).any())
         e_lo, e_hi, e_vi = expect(v, lo, hi)
@@ -106,10 +111,13 @@ def run_case(case: dict[str, Any]) -> dict[str, Any]:  # noqa: C901, PLR0915
             continue  # nothing to report for completely unbounded variables
         check(got_lo is not None and got_hi is not None and got_vi is not None, f"{name}-info-missing",
               f"{name}: a finite bound exists but no differences/violations are reported", case)
-        check(same(got_lo, e_lo), f"{name}-lower-diff", f"{name}: lower diff {np.asarray(got_lo).tolist()} != {e_lo.tolist()}", case)
-        check(same(got_hi, e_hi), f"{name}-upper-diff", f"{name}: upper diff {np.asarray(got_hi).tolist()} != {e_hi.tolist()}", case)
-        check(same(got_vi, e_vi), f"{name}-violation", f"{name}: violation {np.asarray(got_vi).tolist()} != {e_vi.tolist()}", case)
-        outside = (v < lo) | (v > hi)
+        mag = np.abs(v) + np.where(np.isfinite(lo), np.abs(lo), 0.0) + np.where(np.isfinite(hi), np.abs(hi), 0.0)
+        check(same(got_lo, e_lo, mag), f"{name}-lower-diff", f"{name}: lower diff {np.asarray(got_lo).tolist()} != {e_lo.tolist()}", case)
+        check(same(got_hi, e_hi, mag), f"{name}-upper-diff", f"{name}: upper diff {np.asarray(got_hi).tolist()} != {e_hi.tolist()}", case)
+        check(same(got_vi, e_vi, mag), f"{name}-violation", f"{name}: violation {np.asarray(got_vi).tolist()} != {e_vi.tolist()}", case)
+        if case.get("near"):
+            unsure = max(unsure, 1e-12 * float(np.max(mag, initial=0.0)))
+        outside = (v < lo - 1e-12 * mag) | (v > hi + 1e-12 * mag)
         check(bool(np.all(np.asarray(got_vi)[outside] > 0)), f"{name}-violation",
               f"{name}: a value outside a finite bound has no positive violation", case)
     if transforms is None:
@@ -117,9 +125,9 @@ def run_case(case: dict[str, Any]) -> dict[str, Any]:  # noqa: C901, PLR0915
             held = plan.get(handler, "results")
             if tol is None:
                 feasible = True
-            elif max_violation == 0.0 or max_violation <= 0.5 * tol:
+            elif (max_violation == 0.0 and unsure == 0.0) or max_violation + unsure <= 0.5 * tol:
                 feasible = True
-            elif max_violation > tol * (1 + 1e-6) + 1e-9:
+            elif max_violation - unsure > tol * (1 + 1e-6) + 1e-9:
                 feasible = False
             else:
                 continue
@@ -159,10 +167,39 @@ def hypothesis_shard(item: dict[str, Any]) -> Collector:
                 row[draw(st.integers(0, n - 1))] = 1.0
             a_mat.append(row)
         tkind = draw(st.sampled_from(["none", "none", "var", "all", "con", "var-offsets-only", "var-scales-only"]))
+        x = [draw(num) for _ in range(n)]
+        slopes = [draw(num) for _ in range(r_n * (1 + c_n) * n)]
+        offsets = [draw(num) for _ in range(r_n * (1 + c_n))]
+        near = draw(st.integers(0, 3)) == 0
+        if near:  # values of any magnitude that sit on, just inside or just outside a finite bound
+            big = draw(st.sampled_from([1.0, 1e3, 1e6, 1e6]))
+            x = [v * big for v in x]
+            xa = np.array(x)
+            delta = st.sampled_from([0.0, 1e-6, -1e-6, 3e-6, -3e-6, 1e-4, -1e-4, 0.5])
+
+            def snap(vals: np.ndarray, lo: list[float], hi: list[float]) -> None:
+                for i, v in enumerate(vals):
+                    d = draw(delta) * max(abs(float(v)), 1.0)
+                    side = draw(st.sampled_from(["lo", "hi", "none"]))
+                    if side == "lo" and np.isfinite(lo[i]):
+                        lo[i] = float(v) + d
+                    elif side == "hi" and np.isfinite(hi[i]):
+                        hi[i] = float(v) + d
+                    if lo[i] > hi[i]:
+                        lo[i], hi[i] = hi[i], lo[i]
+
+            snap(xa, lb, ub)
+            if l_n:
+                snap(np.array(a_mat) @ xa, llb, lub)
+            if c_n:
+                sl = np.array(slopes).reshape(r_n, 1 + c_n, n)
+                of = np.array(offsets).reshape(r_n, 1 + c_n)
+                snap(np.mean(sl[:, 1:] @ xa + of[:, 1:], axis=0), nlb, nub)
         return {
-            "n": n, "R": r_n, "L": l_n, "C": c_n, "x": [draw(num) for _ in range(n)], "lb": lb, "ub": ub,
+            "near": near,
+            "n": n, "R": r_n, "L": l_n, "C": c_n, "x": x, "lb": lb, "ub": ub,
             "A": a_mat, "llb": llb, "lub": lub, "nlb": nlb, "nub": nub,
-            "slopes": [draw(num) for _ in range(r_n * (1 + c_n) * n)], "offsets": [draw(num) for _ in range(r_n * (1 + c_n))],
+            "slopes": slopes, "offsets": offsets,
             "vscale": [draw(st.sampled_from([0.5, 2.0, 10.0])) for _ in range(n)] if tkind in ("var", "all", "var-scales-only") else None,
             "voff": [draw(st.sampled_from([0.0, 1.0, -2.0])) for _ in range(n)] if tkind in ("var", "all", "var-offsets-only") else None,
             "oscale": draw(st.sampled_from([2.0, 0.1])) if tkind == "all" else None,
@@ -175,7 +212,8 @@ def hypothesis_shard(item: dict[str, Any]) -> Collector:
         col.case(case, nontrivial=info["nontrivial"], classes=(
             "violated" if info["violated"] else "feasible", f"L={case['L']}", f"C={case['C']}",
             "transforms" if case["vscale"] or case["voff"] or case["cscale"] else "plain",
-            "bounds-inf-both-sides" if mixed_var else "bounds-other"))
+            "bounds-inf-both-sides" if mixed_var else "bounds-other",
+            ("near-bound-large-magnitude" if max(abs(v) for v in case["x"]) > 100 else "near-bound") if case["near"] else "generic-bounds"))  # noqa: PLR2004
 
     run_hypothesis(col, cases(), body, seed=item["seed"], max_examples=item["examples"])
     return col
